@@ -690,7 +690,7 @@ func runC12(c *rt.Ctx) {
 						c12Case(w, doc+suf, cfg)
 					}
 					// garbage far behind the value: beyond any read-ahead chunk of a streaming decoder (512, 4096 bytes)
-					if i%16 == 0 {
+					if i%c.Pick(48, 16) == 0 {
 						for _, pad := range []int{500, 509, 510, 511, 512, 513, 600, 1023, 1024, 1025, 4095, 4096, 4097, 9000} {
 							ws := strings.Repeat(" ", pad)
 							if pad%2 == 1 {
